@@ -7,7 +7,8 @@ size is decided:
 
   * an operand of a comparison, or a factor / divisor / summand of such an operand (``len(x) > 16 * max_len``, ``n > N + N // 10``),
   * an argument of range / islice / take / min / max, a slice bound or a repetition count (``docs[:64]``, ``(a, b) * 128``),
-  * the value a counter is initialised with when the counter is later compared (``docs_left = 512 ... while docs_left >= 0``).
+  * the value a local name is bound to when that name is later compared or used as such a bound (``docs_left = 512 ... while
+    docs_left >= 0``, ``run = 2 * WORDS - 1 ... parts[i:i + run]``).
 
 Constants below ``least`` are left out (the scenarios of the models already cover both sides of 0..3), as are constants above ``most``
 (reported by the caller as a scale the model cannot reach).  The result maps each constant to the places it was read from, so that the
@@ -86,10 +87,12 @@ def mine(mods, fns=None, least=4, most=4096):
                 elif isinstance(n, ast.Call) and call_name(n).split('.')[-1] in SIZE_CALLS:
                     for a in n.args:
                         hits += _ints_in(a, consts)
+                        compared.update(x.id for x in ast.walk(a) if isinstance(x, ast.Name))
                 elif isinstance(n, ast.Slice):
                     for e in (n.lower, n.upper, n.step):
                         if e is not None:
                             hits += _ints_in(e, consts)
+                            compared.update(x.id for x in ast.walk(e) if isinstance(x, ast.Name))
                 elif isinstance(n, ast.BinOp) and isinstance(n.op, ast.Mult) and (
                         isinstance(n.left, (ast.Tuple, ast.List)) or isinstance(n.right, (ast.Tuple, ast.List))):
                     hits += _ints_in(n.right if isinstance(n.left, (ast.Tuple, ast.List)) else n.left, consts)
